@@ -147,7 +147,17 @@ def shard_lines(lines, target):
 
 def mc_one(ctx, label, consts, workers):
     cfg = vf.cfg_text(constants=consts, invariants=["InvDisjoint", "InvSorted", "InvJudgedOnce"], properties=["OffendersGrow", "RecordsGrow"])
-    vf.mc(ctx, "MC_Disputes", cfg, workers=workers, timeout=1500, heap="4g", label="MC_Disputes/" + label)
+    cover = (not ctx.quick) and label == "b2k5"           # vacuity guard on one configuration
+    res = vf.mc(ctx, "MC_Disputes", cfg, workers=workers, timeout=3000, heap="4g", label="MC_Disputes/" + label, coverage=cover)
+    if cover:
+        import re
+        acts = {}
+        for m in re.finditer(r"<(\w+) line [^>]*>: (\d+):(\d+)", res.out):
+            acts[m.group(1)] = acts.get(m.group(1), 0) + int(m.group(3))
+        ctx.cov["actions"].update(acts)
+        for a in ("Block", "Place"):
+            if not acts.get(a):
+                raise vf.Infra("vacuous model check: action %s never taken (%s)" % (a, acts))
 
 
 def run(ctx):
@@ -169,7 +179,7 @@ def run(ctx):
             mcf = []
         else:
             base = {"V": "6", "Reports": "{1,2,3}", "Keys": "{1,2,3,4}", "Cores": "2", "MaxVerdicts": "2", "MaxBlocks": "2", "CulpritSizes": "{2}"}
-            mcs = [("b2k4", base, 2)] if q else [("b2k5", dict(base, Keys="{1,2,3,4,5}", CulpritSizes="{2,3}"), 3), ("b3k4", dict(base, MaxBlocks="3"), 4)]
+            mcs = [("b2k4r2", dict(base, Reports="{1,2}"), 2)] if q else [("b2k5", dict(base, Keys="{1,2,3,4,5}", CulpritSizes="{2,3}"), 3), ("b3k4", dict(base, MaxBlocks="3"), 4)]
             mcf = [ex.submit(mc_one, ctx, label, c, w) for label, c, w in mcs]
             gen_f = ex.submit(vf.gen_cases, ctx, "Disputes_Gen", {}, "cases-gen.ndjson", 600)
             rng = vf.Rng(ctx.seed)
